@@ -24,7 +24,7 @@ LARGE_CALLS = [0]
 
 
 def plan(tier):
-  return {'n_cases': 700 if tier == 'quick' else 14000, 'shards': 16}
+  return {'n_cases': 700 if tier == 'quick' else 42000, 'shards': 16}
 
 
 def setup(ctx):
